@@ -322,7 +322,7 @@ def run_threads(cfg, preempt=None, opcode=False):
 
         for p in cfg["progs"]:
             ctl.spawn(thread(p), "t")
-        status = ctl.run(timeout=cfg.get("timeout", 30.0))
+        status = ctl.run(timeout=cfg.get("timeout", 120.0))
     return {"status": status, "events": ctl.events, "choices": ctl.choices, "steps": ctl.steps, "n": len(cfg["progs"]),
             "thread_exc": [[t.idx, type(t.exc).__name__] for t in ctl.threads if t.exc is not None]}
 
